@@ -7,6 +7,7 @@ from ..r_rings import rule_heavy_atoms
 from ..r_domains import rule_domains
 from ..r_keys import rule_fresh_keys
 from ..r_hygiene import rule_hygiene as _rule_hygiene
+from ..r_rules import rule_overlap_atoms as _rule_overlap
 from ..r_valence import rule_tentative_removal_set as _rule_tentative
 from ..r_rings import rule_tentative_rollback as _rule_rollback
 
@@ -28,5 +29,6 @@ def run(ck, repo):
     rule_heavy_atoms(ck, repo, 'C14.D3-heavy-atoms', P)
     rule_fresh_keys(ck, repo, 'C14.D3-fresh-atom-numbers')
     _rule_hygiene(ck, repo, 'C14.H-dataflow-hygiene', 'C14')
+    _rule_overlap(ck, repo, 'C14.D2-overlap-atoms')
     _rule_tentative(ck, repo, 'C14.D4-tentative-removal')
     _rule_rollback(ck, repo, 'C14.D4-tentative-rollback', ['chython.algorithms.standardize.resonance:Resonance.fix_resonance'])
